@@ -47,6 +47,8 @@ structure Tables where
   descRaw : Bool
   toolOmitsDirectives : Bool
   assureOnce : Bool
+  unionFirstCome : Bool
+  ifaceNeedsBound : Bool
   shallowRollback : Bool
   inputExtendMapOrder : Bool
   toolEmbedRaw : Bool
